@@ -678,3 +678,55 @@ def coupling_connectivity_next_to_another_into_one_variable(case):
     for c in ps["conns"]:
         by_t.setdefault(c["t"], []).append(c)
     return any(len(v) >= 2 and any(c.get("coupling") for c in v) for v in by_t.values())
+
+
+def _nums(ast, out=None):
+    out = [] if out is None else out
+    k = ast[0]
+    if k == "num":
+        out.append(float(ast[1]))
+    elif k in ("neg",):
+        _nums(ast[1], out)
+    elif k == "pow":
+        _nums(ast[1], out)
+        out.append(float(ast[2]))
+    elif k == "bin":
+        _nums(ast[2], out); _nums(ast[3], out)
+    elif k == "call":
+        for a in ast[2:]:
+            _nums(a, out)
+    return out
+
+
+@predicate("F-18a")
+def fortran_single_precision_literal(case):
+    """Fortran backend with float_precision='float64': numeric literals of the equations are written as default-kind
+    (single precision) constants, so a literal that is not exactly representable in float32 (0.1, 0.05) enters the
+    generated vector field with a relative error of ~1e-8"""
+    import numpy as np
+    if case.get("cfg", {}).get("backend", "fortran") != "fortran":
+        return False
+    from . import expr as E
+    for ast in _all_asts(case):
+        if any(float(np.float32(v)) != v for v in _nums(ast)):
+            return True
+        # constant sub-expressions are folded by sympy into one literal ((0.5+2*2)**1.5 -> 9.54594154601839); a division
+        # by a constant becomes a multiplication with its reciprocal (q/1.5 -> 0.666666666666667*q)
+        for sub in _walk(ast):
+            if sub[0] == "bin" and sub[1] == "/" and not _has_var(sub[3]):
+                try:
+                    with np.errstate(all="ignore"):
+                        v = 1.0 / float(E.evaluate(sub[3], {}))
+                    if np.isfinite(v) and float(np.float32(v)) != v:
+                        return True
+                except Exception:
+                    return True
+            if sub[0] in ("bin", "pow", "call", "neg") and not _has_var(sub):
+                try:
+                    with np.errstate(all="ignore"):
+                        v = float(E.evaluate(sub, {}))
+                    if np.isfinite(v) and float(np.float32(v)) != v:
+                        return True
+                except Exception:
+                    return True
+    return False
